@@ -690,8 +690,16 @@ func doCheck(id, tier string, keep bool) int {
 			cov["evaluations"] = int64(0)
 		}
 	}
-	if _, ok := cov["distinct_nontrivial"]; !ok {
+	// distinct_nontrivial is measured: the number of distinct observed outcomes (payloads, states,
+	// attempt logs ... as the check's rule says), counted through a hash set; the per-case pass
+	// counter of the workers is reported separately.
+	if v, ok := cov["distinct_nontrivial"]; ok {
+		cov["cases_checked_ok"] = v
+	}
+	if len(outc) > 0 {
 		cov["distinct_nontrivial"] = len(outc)
+	} else if _, ok := cov["distinct_nontrivial"]; !ok {
+		cov["distinct_nontrivial"] = 0
 	}
 	var ss []any
 	for _, s := range samples {
